@@ -153,4 +153,18 @@ def oldLattice (Lx Ly : Nat) : Lattice where
   logX := oldLogX Lx Ly
   logZ := oldLogZ Lx Ly
 
+/-! ### the explicit independent family of `n − k = 8·Lx·Ly − 4` generators of the rank clause
+(`C01Color488Code.rank_family`, proved in `Proofs/LatColor488CodeRank*.lean`); printed by the driver op
+`rankfamily` and evaluated on the implementation's parity-check matrix on every run -/
+
+/-- the face centres in `[0, 8Lx) × [0, 8Ly)` (the seam rows of `faces` are copies of these) -/
+def canonFaces (Lx Ly : Nat) : List Coord :=
+  grid (pyRangeStep 0 (8 * (Lx : Int)) 4) (pyRangeStep 0 (8 * (Ly : Int)) 4)
+
+/-- all canonical faces but the green octagon `(0, 4)` and the blue octagon `(4, 0)` -/
+def selFaces (Lx Ly : Nat) : List Coord := (canonFaces Lx Ly).filter fun c => c != [0, 4] && c != [4, 0]
+
+/-- the selected stabilizer locations: the X and the Z generator of every selected face -/
+def sel (Lx Ly : Nat) : List Coord := both (selFaces Lx Ly)
+
 end Panqec.Color488Code
